@@ -17,7 +17,7 @@ PROPS = ("C20",)
 BUDGET = {"quick": 900, "thorough": 1500}
 CHUNK = 40
 YEARS = (2019, 2020, 2021, 2022)
-KINDS = {"B": ("IN", "BUY"), "I": ("IN", "INTEREST"), "S": ("OUT", "SELL"), "M": ("INTRA", "MOVE"), "m": ("INTRA", "MOVE"), "G": ("IN", "GIFT")}  # m = transfer without fee
+KINDS = {"B": ("IN", "BUY"), "I": ("IN", "INTEREST"), "S": ("OUT", "SELL"), "M": ("INTRA", "MOVE"), "m": ("INTRA", "MOVE"), "G": ("IN", "GIFT"), "d": ("OUT", "DONATE")}  # m = transfer without fee
 
 
 def jobs(tier):
@@ -25,6 +25,10 @@ def jobs(tier):
     for lang in ("en", "kl"):
         for c1, c2 in [("BS", "B"), ("BBS", "B"), ("BSB", "BS"), ("BIS", "B"), ("BMS", "B"), ("BmS", "B")] if tier == "quick" else [("BS", "B"), ("BBS", "B"), ("BSB", "BS"), ("BIS", "B"), ("BMS", "B"), ("BmS", "B"), ("BBSS", "BS"), ("BSBS", "B"), ("BGS", "BS"), ("BSS", "BSS")]:
             js.append({"c1": c1, "c2": c2, "lang": lang})
+    # two donations, free to fall into one year: each is listed with its own donated yen value ("0 (￥x)")
+    js.append({"c1": "Bdd", "c2": "B", "lang": "en"})
+    if tier == "thorough":
+        js.append({"c1": "BdSd", "c2": "B", "lang": "en"})
     # timestamps within hours of New Year with non-UTC offsets: the year is the one written in the timestamp
     js.append({"c1": "BS", "c2": "B", "lang": "en", "edge": True})
     js.append({"c1": "BBS", "c2": "B", "lang": "en", "edge": True})
@@ -40,11 +44,29 @@ def weight(spec):
 
 
 def bounds(tier):
-    return {"years": "every assignment of the transactions of asset B1 to the years 2019-2022 (sparse years, disposal-only years, sheet order different from year order); asset B2 in fixed years", "history": "2-3 transactions for B1, 1-2 for B2" if tier == "quick" else "2-4 for B1, 1-3 for B2", "languages": ["en", "kl (test locale)"], "amounts": "k*1e-11 in [1e-11, 1e9]", "prices": "k*1e-4 in [1e-4, 1e6]", "outside": ["month/day/time of day (concrete)", "the spreadsheet formulas' values (only which sheet and cell they reference)", "donations (the generator formats the donated amount through float)", "language ja (no templates shipped: C16 / D3)"]}
+    return {"years": "every assignment of the transactions of asset B1 to the years 2019-2022 (sparse years, disposal-only years, sheet order different from year order); asset B2 in fixed years", "history": "2-3 transactions for B1, 1-2 for B2" if tier == "quick" else "2-4 for B1, 1-3 for B2", "languages": ["en", "kl (test locale)"], "amounts": "k*1e-11 in [1e-11, 1e9]", "prices": "k*1e-4 in [1e-4, 1e6]", "outside": ["month/day/time of day (concrete)", "the spreadsheet formulas' values (only which sheet and cell they reference)", "the binary rounding of the donated amount (formatted through float: the printed text is compared with a tolerance of half a yen cent on real code and stands for the exact value in the encoding)", "language ja (no templates shipped: C16 / D3)"]}
 
 
 def assumptions():
     return ["the year of each B1 transaction is a symbolic variable realised exhaustively; within one history later slots never get an earlier year than an uncovered disposal needs (histories that rp2 rejects are not inspected)", "allow_negative_balances=True"]
+
+
+def _donation(S, cell, want, what):
+    """the sold-yen cell of a donation reads '0 (￥<donated yen, 2 decimals>)': <donated yen> is this row's amount x price"""
+    parts = list(getattr(cell, "parts", [cell]))
+    if len(parts) == 1 and type(parts[0]) is str:  # real code: parse the printed number  # pylint: disable=unidiomatic-typecheck
+        m = re.match(r"^0 \(\uffe5([0-9,]+\.[0-9]{2})\)$", parts[0])
+        S.expect(m is not None, "C20", "donation-text", "%s: sold-yen cell reads %r" % (what, parts[0]))
+        from decimal import Decimal  # pylint: disable=import-outside-toplevel
+
+        shown = S.ex(Decimal(m.group(1).replace(",", "")))
+        d = shown - want
+        S.expect(not d * 1000 > 5 + want / 10**9 and not d * 1000 < -5 - want / 10**9, "C20", "donation", "%s: the cell shows %s, the donated value is %s" % (what, parts[0], want))
+        return
+    S.expect(len(parts) == 3 and parts[0] == "0 (\uffe5" and parts[2] == ")" and type(parts[1]).__name__ == "_Formatted" and parts[1].spec == "float:0,.2f", "C20", "donation-text", "%s: sold-yen cell is %r" % (what, parts))
+    # two decimals are printed: the text stands for a value within half a cent of the formatted number
+    d = S.ex(parts[1].value) - want
+    S.expect(not d * 1000 > 5 and not d * 1000 < -5, "C20", "donation", "%s: the donated value shown is not this row's amount x price" % what)
 
 
 def run(S, spec):
@@ -120,7 +142,11 @@ def run(S, spec):
                     S.expect(6 not in c and 7 not in c, "C20", "purchase-with-sale", what)
             elif s["table"] == "OUT":
                 S.expect(c.get(3) == s["type"] and c.get(2) == s["ex"], "C20", "type-cell", what)
-                S.expect(S.eq(S.ex(c.get(6)), S.ex_int(h.need(i), 11)) and S.eq(S.ex(c.get(7)), S.ex_int(h.a[i] * h.p[i], 15)), "C20", "sale", what)
+                if s["type"] == "DONATE":
+                    S.expect(S.eq(S.ex(c.get(6)), S.ex_int(h.need(i), 11)), "C20", "sale", what)
+                    _donation(S, c.get(7), S.ex_int(h.a[i] * h.p[i], 15), what)
+                else:
+                    S.expect(S.eq(S.ex(c.get(6)), S.ex_int(h.need(i), 11)) and S.eq(S.ex(c.get(7)), S.ex_int(h.a[i] * h.p[i], 15)), "C20", "sale", what)
                 S.expect(4 not in c and 5 not in c, "C20", "sale-with-purchase", what)
             else:
                 S.expect(c.get(3) == "FEE" and c.get(2) == tr("Transfer"), "C20", "type-cell", what)
